@@ -57,6 +57,8 @@ func c14Rename(tc *scCase) []scItem {
 		case "gfunc":
 			it.N = nm(it.N, it.Nb)
 			it.P = c14Name(it.Pid)
+		case "cfunc", "cchain":
+			it.P = c14Name(it.Pid)
 		case "muse":
 			it.T = nm(it.T, it.Tb)
 		case "meth":
